@@ -319,6 +319,42 @@ void World::run_atomic()
             else if (prev.hash() != hash_post)
                 report("C14", "C14|" + opname + "|" + fam() + "|retry-differs|" + fault_site(f),
                        "retrying " + opname + " after a failed attempt gives a different state than a first attempt");
+            else if (force_retry || r.chance(1, 2))
+            {
+                // "the library stays usable": what the retry wrote must also reach the disk
+                // (handles to removed entities are not carried across a reload: compare like with like)
+                auto gone = [](auto& h) {
+                    try
+                    {
+                        return !h->is_valid();
+                    }
+                    catch (...)
+                    {
+                        return true;
+                    }
+                };
+                for (auto& t : tracks)
+                    if (t.h && (!t.live || gone(t.h)))  // a table-API remove leaves the slot "live" in L's bookkeeping
+                    {
+                        t.h.reset();
+                        t.live = false;
+                    }
+                for (auto& c : crates)
+                    if (c.h && (!c.live || gone(c.h)))
+                    {
+                        c.h.reset();
+                        c.live = false;
+                    }
+                uint64_t before_reload = observe().hash();
+                Step rl;
+                rl.op = "reload";
+                rl.vseed = plan.seed ^ 0xD0AB1E;
+                exec_step(rl);
+                if (!stop && prev.hash() != before_reload)
+                    report("C14", "C14|" + opname + "|" + fam() + "|lost-after-reload|" + fault_site(f),
+                           "after a failed " + opname + " the retried call succeeded, but its effect is gone after close and reload");
+                probes.hit("atomic_retry_reloaded");
+            }
             for (size_t v = b2; v < viols.size(); ++v)
             {
                 Plan d = plan;
